@@ -20,9 +20,36 @@ Definition Qmaxabs (l : list Q) : Q := fold_left (fun acc x => Qmax' acc (Qabs x
 (* entries compared relative to the largest entry of the matrix and to the magnitude `mag` of the inputs that are
    added up in the translation column (those entries are obtained by cancellation) *)
 Definition vabs1 (v : vec3 Q) : Q := Qabs (vx v) + Qabs (vy v) + Qabs (vz v).
-Definition mat_close_scaled (mag : Q) (m : mat4 Q) (o : list fl) : bool :=
-  let s := Qmax' mag (Qmaxabs (mlist m)) in
-  all2 (fun a b => match b with Fin q => Qle_bool (Qabs (a - q)) (tol * s) | _ => false end) (mlist m) o.
+(* Camera / canvas matrices, compared part by part (no absolute floor anywhere):
+   - the 3x3 block: products without cancellation across rows; entry (i,j) is compared relative to the largest entry of
+     its row (forward matrices: row i carries the factor of stage scale i) or of its column (inverse matrices: column j
+     carries it).  Input magnitudes play no role here, so a camera at |position| ~ 1e9 is compared as strictly as one at 0;
+   - the translation column: obtained by cancellation of terms of the size of the inputs, compared relative to `tmag`
+     (per row) or to the entry itself;
+   - the last row 0 0 0 1: to 1e-9. *)
+Definition maxabs3 (a b c : Q) : Q := Qmax' (Qabs a) (Qmax' (Qabs b) (Qabs c)).
+Definition within (t a : Q) (b : fl) : bool :=
+  match b with Fin q => Qle_bool (Qabs (a - q)) t | _ => false end.
+Definition mat_close_parts (byrow : bool) (tmag : vec3 Q) (m : mat4 Q) (o : list fl) : bool :=
+  let r0 := maxabs3 (m00 m) (m01 m) (m02 m) in
+  let r1 := maxabs3 (m10 m) (m11 m) (m12 m) in
+  let r2 := maxabs3 (m20 m) (m21 m) (m22 m) in
+  let c0 := maxabs3 (m00 m) (m10 m) (m20 m) in
+  let c1 := maxabs3 (m01 m) (m11 m) (m21 m) in
+  let c2 := maxabs3 (m02 m) (m12 m) (m22 m) in
+  let s (r c : Q) := tol * (if byrow then r else c) in
+  let t (g a : Q) := tol * Qmax' g (Qabs a) in
+  match o with
+  | [o00; o01; o02; o03; o10; o11; o12; o13; o20; o21; o22; o23; o30; o31; o32; o33] =>
+      within (s r0 c0) (m00 m) o00 && within (s r0 c1) (m01 m) o01 && within (s r0 c2) (m02 m) o02 &&
+      within (t (vx tmag) (m03 m)) (m03 m) o03 &&
+      within (s r1 c0) (m10 m) o10 && within (s r1 c1) (m11 m) o11 && within (s r1 c2) (m12 m) o12 &&
+      within (t (vy tmag) (m13 m)) (m13 m) o13 &&
+      within (s r2 c0) (m20 m) o20 && within (s r2 c1) (m21 m) o21 && within (s r2 c2) (m22 m) o22 &&
+      within (t (vz tmag) (m23 m)) (m23 m) o23 &&
+      within tol (m30 m) o30 && within tol (m31 m) o31 && within tol (m32 m) o32 && within tol (m33 m) o33
+  | _ => false
+  end.
 (* entries compared one by one, relative to their own size (no cancellation in these matrices) *)
 Definition entry_close (a : Q) (b : fl) : bool :=
   match b with Fin q => Qle_bool (Qabs (a - q)) (tol * Qmax' (Qabs a) (Qabs q)) | _ => false end.
@@ -30,9 +57,9 @@ Definition mat_close_entrywise (m : mat4 Q) (o : list fl) : bool := all2 entry_c
 
 Definition has_nan (o : list fl) : bool := existsb fl_is_nan o.
 
-Definition agree_opt (mag : Q) (m : option (mat4 Q)) (o : obs) : bool :=
+Definition agree_opt (byrow : bool) (tmag : vec3 Q) (m : option (mat4 Q)) (o : obs) : bool :=
   match m, o with
-  | Some a, Ok l => mat_close_scaled mag a l
+  | Some a, Ok l => mat_close_parts byrow tmag a l
   | None, Ok l => has_nan l && Nat.eqb (length l) 16
   | _, Raise _ => false
   end.
@@ -42,9 +69,9 @@ Definition agree_res (m : result (mat4 Q)) (o : obs) : bool :=
   | Raise e, Raise e' => exn_eqb e e'
   | _, _ => false
   end.
-Definition agree_res_opt (mag : Q) (m : result (option (mat4 Q))) (o : obs) : bool :=
+Definition agree_res_opt (byrow : bool) (tmag : vec3 Q) (m : result (option (mat4 Q))) (o : obs) : bool :=
   match m, o with
-  | Ok a, Ok _ => agree_opt mag a o
+  | Ok a, Ok _ => agree_opt byrow tmag a o
   | Raise e, Raise e' => exn_eqb e e'
   | _, _ => false
   end.
@@ -52,8 +79,9 @@ Definition agree_res_opt (mag : Q) (m : result (option (mat4 Q))) (o : obs) : bo
 Definition check_case (c : case) : bool :=
   match c with
   | CW2V p t u fwd inv =>
-      let mag := vabs1 p in
-      agree_opt mag (world_to_view QOps p t u false) fwd && agree_opt mag (world_to_view QOps p t u true) inv
+      let g := vabs1 p in
+      agree_opt true (V3 g g g) (world_to_view QOps p t u false) fwd &&
+      agree_opt false (V3 g g g) (world_to_view QOps p t u true) inv
   | COrtho w h n f fwd inv =>
       agree_res (view_to_orthographic_projection QOps w h n f false) fwd &&
       agree_res (view_to_orthographic_projection QOps w h n f true) inv
@@ -61,8 +89,11 @@ Definition check_case (c : case) : bool :=
       agree_res (viewport_transform QOps xr yb xl yt false) fwd &&
       agree_res (viewport_transform QOps xr yb xl yt true) inv
   | CCanvas w h p t zoom fwd inv =>
-      (* forward entries are sums of terms of size zoom*|position|, w, h; inverse entries of size |position|, w/zoom, h/zoom, far+near *)
-      agree_res_opt (Qabs zoom * vabs1 p + Qabs w + Qabs h) (world_to_canvas QOps w h p t zoom false) fwd &&
-      agree_res_opt (if Qeq_bool zoom 0 then 1 else vabs1 p + (Qabs w + Qabs h) / Qabs zoom + 2001)
-                    (world_to_canvas QOps w h p t zoom true) inv
+      (* forward translation entries: x row zoom*(left.position) + w/2, y row zoom*(up.position) + h/2,
+         z row (look.position)/1999.9 + constants below 2; inverse: position + terms of size (w+h)/zoom and far+near *)
+      let g := vabs1 p in
+      agree_res_opt true (V3 (Qabs zoom * g + Qabs w) (Qabs zoom * g + Qabs h) (g / 1000 + 2))
+                    (world_to_canvas QOps w h p t zoom false) fwd &&
+      let gi := if Qeq_bool zoom 0 then 1 else g + (Qabs w + Qabs h) / Qabs zoom + 2001 in
+      agree_res_opt false (V3 gi gi gi) (world_to_canvas QOps w h p t zoom true) inv
   end.
